@@ -26,6 +26,7 @@ import (
 	"hash/crc32"
 	"math/rand"
 	"os"
+	"os/exec"
 	"path/filepath"
 	"sort"
 	"strconv"
@@ -137,13 +138,22 @@ func c11Same(it sstIter, e sEntry) string {
 }
 
 func runC11(c *Case, out func(string)) {
+	if hdrVal(c.Hdr, "mode", "") == "child" {
+		c11Child(c, out)
+		return
+	}
 	dir := tmpDir("c11-")
 	defer os.RemoveAll(dir)
 	bloom := hdrVal(c.Hdr, "bloom", "1") == "1"
 	guard := hdrVal(c.Hdr, "guard", "ok")
 	var es []sEntry
 	var ops [][]string
+	var probes [][]byte
 	for _, l := range c.Lines {
+		if l[0] == "probe" {
+			probes = append(probes, tok(l[1]))
+			continue
+		}
 		if l[0] == "e" {
 			e := sEntry{key: tok(l[1]), seq: parseNum(l[2])}
 			if l[3] != "~" {
@@ -187,6 +197,7 @@ func runC11(c *Case, out func(string)) {
 		}
 	}
 	var it sstIter
+	var blk c11Blk
 	adapter := false
 	pos := -2 // oracle's position: -2 unknown (no constraint), -1 invalid, >= 0 index into es
 	fresh := true
@@ -242,7 +253,7 @@ func runC11(c *Case, out func(string)) {
 			fail(fmt.Sprintf("forward iteration ended after %d of %d entries", n, len(es)))
 		}
 		ierr := c11IterErr(it)
-		out(fmt.Sprintf("Z %d err=%d", n, c11b01(ierr != nil)))
+		out(fmt.Sprintf("Z %d err=%s", n, c11ErrFlag(it)))
 		if ierr != nil {
 			fail("forward iteration reported an error: " + ierr.Error())
 		}
@@ -326,7 +337,7 @@ func runC11(c *Case, out func(string)) {
 					fail(fmt.Sprintf("%s returned %d but Valid()=%v", l[0], ret, it.Valid()))
 				}
 			}
-			out(fmt.Sprintf("P %s ret=%s valid=%d %s", l[0], rs, c11b01(it.Valid()), c11EntryStr(it)))
+			out(fmt.Sprintf("P %s ret=%s valid=%d err=%s %s", l[0], rs, c11b01(it.Valid()), c11ErrFlag(it), c11EntryStr(it)))
 			checkPos(strings.Join(l, " "))
 		case "get":
 			k := tok(l[1])
@@ -359,8 +370,11 @@ func runC11(c *Case, out func(string)) {
 			}
 		case "layout":
 			c11Layout(path, out, fail)
+		case "bit", "bfirst", "blast", "bnext", "bseek", "bprev":
+			c11BlockOp(path, l, &blk, out, fail)
+			stat["blockops"]++
 		case "corrupt":
-			c11Corrupt(dir, path, es, l, out, fail, stat)
+			c11Corrupt(dir, path, es, probes, l[1:], out, fail, stat)
 		default:
 			out("IMPL-ERROR bad line " + strings.Join(l, " "))
 		}
@@ -381,11 +395,19 @@ func runC11(c *Case, out func(string)) {
 		}
 	}
 	nt := 0
-	if len(es) >= 2 && (stat["seeks"] > 0 || stat["scans"] > 0 || stat["corruptions"] > 0) {
+	if len(es) >= 2 && (stat["seeks"] > 0 || stat["scans"] > 0 || stat["corruptions"] > 0 || stat["blockops"] > 0) {
 		nt = 1
 	}
-	out(fmt.Sprintf("META entries=%d blocks=%d tombstones=%d empty_values=%d seeks=%d seek_present=%d seek_past_end=%d gets=%d get_present=%d scans=%d corruptions=%d bloom=%d guard=%s nontrivial=%d",
-		len(es), nblocks, tombs, empties, stat["seeks"], stat["seek_present"], stat["seek_past_end"], stat["gets"], stat["get_present"], stat["scans"], stat["corruptions"], c11b01(bloom), guard, nt))
+	out(fmt.Sprintf("META entries=%d blocks=%d tombstones=%d empty_values=%d seeks=%d seek_present=%d seek_past_end=%d gets=%d get_present=%d scans=%d blockops=%d corruptions=%d corrupt_open_err=%d corrupt_open_ok=%d corrupt_crash=%d corrupt_incomplete_scan=%d corrupt_get_missing=%d bloom=%d guard=%s nontrivial=%d",
+		len(es), nblocks, tombs, empties, stat["seeks"], stat["seek_present"], stat["seek_past_end"], stat["gets"], stat["get_present"], stat["scans"], stat["blockops"], stat["corruptions"], stat["corrupt_open_err"], stat["corrupt_open_ok"], stat["corrupt_crash"], stat["corrupt_incomplete_scan"], stat["corrupt_get_missing"], c11b01(bloom), guard, nt))
+}
+
+// c11ErrFlag: "0"/"1" for the raw iterator's Error(), "-" through the adapter (which hides it).
+func c11ErrFlag(it sstIter) string {
+	if raw, ok := it.(*sstable.Iterator); ok {
+		return strconv.Itoa(c11b01(raw.Error() != nil))
+	}
+	return "-"
 }
 
 // c11IterErr returns the iterator's error state (raw iterator only; the adapter hides it).
@@ -411,6 +433,10 @@ func c11Err(err error) string {
 		return "unshared"
 	case strings.Contains(s, "invalid bloom filter"):
 		return "bloomsize"
+	case strings.Contains(s, "too small"):
+		return "toosmall"
+	case strings.Contains(s, "invalid restart points"):
+		return "restarts"
 	}
 	if i := strings.Index(s, "/"); i >= 0 {
 		s = s[:i]
@@ -515,8 +541,8 @@ func c11Layout(path string, out func(string), fail func(string)) {
 			}
 			out(fmt.Sprintf("R %s %d %d %s", r.name, r.off, r.len, fmt.Sprintf("%x", b)))
 		case r.name == "filters":
-			// the filter contents are not modelled: per filter the block offset it is registered under and its size
-			out(fmt.Sprintf("R %s %d %d", r.name, r.off, r.len))
+			// per filter additionally the block offset it is registered under and its size
+			out(fmt.Sprintf("R %s %d %d %08x", r.name, r.off, r.len, crc32.ChecksumIEEE(b)))
 			p := 0
 			for p+12 <= len(b) {
 				bo, sz := c11U64(b[p:p+8]), int(c11U32(b[p+8:p+12]))
@@ -548,10 +574,332 @@ func c11U32(b []byte) uint32 {
 	return x
 }
 
-// ---- corruption ---- (filled in with the byte-level model)
+// ---- block scripts: the real block.Reader / block.Iterator on one block of the file ----
 
-func c11Corrupt(dir, path string, es []sEntry, l []string, out func(string), fail func(string), stat map[string]int) {
-	out("IMPL-ERROR corrupt not implemented")
+type c11Blk struct {
+	it *block.Iterator
+}
+
+func c11BlockOp(path string, l []string, st *c11Blk, out func(string), fail func(string)) {
+	if l[0] == "bit" {
+		st.it = nil
+		data, err := os.ReadFile(path)
+		if err != nil {
+			out("Q err")
+			return
+		}
+		rs, err := c11Regions(data)
+		if err != nil {
+			out("Q err")
+			return
+		}
+		name := "index"
+		if l[1] != "i" {
+			name = "data" + l[1]
+		}
+		for _, r := range rs {
+			if r.name == name {
+				br, err := block.NewReader(append([]byte(nil), data[r.off:r.off+r.len]...))
+				if err != nil {
+					out("Q bit " + l[1] + " err")
+					fail("block.NewReader rejects a block of the file just written: " + err.Error())
+					return
+				}
+				st.it = br.Iterator()
+				out("Q bit " + l[1] + " ok")
+				return
+			}
+		}
+		out("Q bit " + l[1] + " err")
+		return
+	}
+	if st.it == nil {
+		out("Q " + l[0] + " noblock")
+		return
+	}
+	ret := "-"
+	switch l[0] {
+	case "bfirst":
+		st.it.SeekToFirst()
+	case "blast":
+		st.it.SeekToLast()
+	case "bnext":
+		ret = strconv.Itoa(c11b01(st.it.Next()))
+	case "bseek":
+		ret = strconv.Itoa(c11b01(st.it.Seek(tok(l[1]))))
+	case "bprev":
+		ret = strconv.Itoa(c11b01(st.it.SeekForPrev(tok(l[1]))))
+	}
+	e := "-"
+	if st.it.Valid() {
+		v := st.it.Value()
+		e = fmt.Sprintf("%s %s %s", render(st.it.Key()), num(st.it.SequenceNumber()), valTok(v))
+		if st.it.IsTombstone() != (v == nil) {
+			e += fmt.Sprintf(" tombflag=%v", st.it.IsTombstone())
+		}
+	}
+	out(fmt.Sprintf("Q %s ret=%s valid=%d %s", l[0], ret, c11b01(st.it.Valid()), e))
+}
+
+// ---- corruption: one byte of the file altered ----
+
+func c11ModeByte(mode string, off int, old byte) byte {
+	switch mode {
+	case "x":
+		return old ^ (1 << uint((off*7+3)%8))
+	case "z":
+		return 0
+	case "o":
+		return 255
+	case "i":
+		return old + 1
+	case "n":
+		return old
+	}
+	panic("bad corruption mode " + mode)
+}
+
+// c11Observe opens the file and prints what can be read from it, in the model's format:
+//   open=<ok|err:class> scan=<n>:<crc32 of the rendered entries>:<err> then per probe g=<n|t|e|v<crc>> s=<ret><crc|->:<err>
+// and checks the property's clause for altered files: whatever is returned was written.
+func c11Observe(path string, es []sEntry, probes [][]byte, bad func(string), stat map[string]int) string {
+	rd, err := sstable.OpenReader(path)
+	if err != nil {
+		if stat != nil {
+			stat["corrupt_open_err"]++
+		}
+		return "open=err:" + c11Err(err)
+	}
+	defer rd.Close()
+	if stat != nil {
+		stat["corrupt_open_ok"]++
+	}
+	var sb strings.Builder
+	it := rd.NewIterator()
+	n := 0
+	var acc strings.Builder
+	last := -1
+	for it.SeekToFirst(); it.Valid() && n <= len(es)+8; it.Next() {
+		acc.WriteString(c11EntryStr(it))
+		acc.WriteByte('\n')
+		// only written entries, each at most once, in order
+		i := c11Lower(es, it.Key())
+		if i >= len(es) || c11Same(it, es[i]) != "" {
+			bad(fmt.Sprintf("iteration yields an entry that was not written (key %x)", it.Key()))
+		} else if i <= last {
+			bad(fmt.Sprintf("iteration yields key %x out of order or twice", it.Key()))
+		} else {
+			last = i
+		}
+		n++
+	}
+	if n < len(es) && stat != nil {
+		stat["corrupt_incomplete_scan"]++
+	}
+	fmt.Fprintf(&sb, "open=ok scan=%d:%08x:%d", n, crc32.ChecksumIEEE([]byte(acc.String())), c11b01(it.Error() != nil))
+	for _, k := range probes {
+		g := ""
+		v, err := rd.Get(k)
+		i := c11Lower(es, k)
+		present := i < len(es) && bytes.Equal(es[i].key, k)
+		switch {
+		case err == nil && v == nil:
+			g = "t"
+			if !present || es[i].val != nil {
+				bad(fmt.Sprintf("Get(%x) reports a deletion marker that was not written", k))
+			}
+		case err == nil:
+			g = fmt.Sprintf("v%08x", crc32.ChecksumIEEE([]byte(render(v))))
+			if !present || es[i].val == nil || !bytes.Equal(es[i].val, v) {
+				bad(fmt.Sprintf("Get(%x) returns a value that was not written for this key", k))
+			}
+		case errors.Is(err, sstable.ErrNotFound):
+			g = "n"
+			if present && stat != nil {
+				stat["corrupt_get_missing"]++
+			}
+		default:
+			g = "e"
+		}
+		sit := rd.NewIterator()
+		ret := sit.Seek(k)
+		s := "-"
+		if sit.Valid() {
+			s = fmt.Sprintf("%08x", crc32.ChecksumIEEE([]byte(c11EntryStr(sit))))
+			j := c11Lower(es, sit.Key())
+			if j >= len(es) || c11Same(sit, es[j]) != "" {
+				bad(fmt.Sprintf("Seek(%x) lands on an entry that was not written (key %x)", k, sit.Key()))
+			}
+		}
+		fmt.Fprintf(&sb, " g=%s s=%d%s:%d", g, c11b01(ret), s, c11b01(sit.Error() != nil))
+	}
+	return sb.String()
+}
+
+// c11Child: "case <id> mode=child path=<file>" + e/probe lines: observe an existing file. Used for
+// alterations that may kill the process (fatal out-of-memory cannot be recovered from).
+func c11Child(c *Case, out func(string)) {
+	var es []sEntry
+	var probes [][]byte
+	for _, l := range c.Lines {
+		switch l[0] {
+		case "e":
+			e := sEntry{key: tok(l[1]), seq: parseNum(l[2])}
+			if l[3] != "~" {
+				e.val = tok(l[3])
+			}
+			es = append(es, e)
+		case "probe":
+			probes = append(probes, tok(l[1]))
+		}
+	}
+	var bads []string
+	obs := c11Observe(hdrVal(c.Hdr, "path", ""), es, probes, func(m string) { bads = append(bads, m) }, nil)
+	out("OBS " + obs)
+	for _, b := range bads {
+		out("BAD " + b)
+	}
+}
+
+// c11Risky: the altered byte lies in the size fields of a stored filter. Before the header was
+// validated (fix c46567a) LoadBloomFilter allocated what the header said and the process died with
+// an unrecoverable out-of-memory error; such alterations are observed in a child process so that a
+// regression there is reported instead of killing the harness.
+func c11Risky(rs []c11Region, data []byte, off int) bool {
+	for _, r := range rs {
+		if r.name != "filters" || off < r.off || off >= r.off+r.len {
+			continue
+		}
+		p := r.off
+		for p+12 <= r.off+r.len {
+			sz := int(c11U32(data[p+8 : p+12]))
+			if off >= p+8 && off < p+12+16 { // stored filter length, bit count, hash function count
+				return true
+			}
+			p += 12 + sz
+		}
+	}
+	return false
+}
+
+func c11Corrupt(dir, path string, es []sEntry, probes [][]byte, args []string, out func(string), fail func(string), stat map[string]int) {
+	data, err := os.ReadFile(path)
+	if err != nil {
+		out("C err")
+		return
+	}
+	rs, err := c11Regions(data)
+	if err != nil {
+		out("C err")
+		return
+	}
+	// the creation timestamp is the only part of the file the model cannot predict: re-encode the
+	// footer with timestamp 0 (footer.Encode recomputes its checksum) before altering bytes
+	if ft, err := footer.Decode(data[len(data)-footer.FooterSize:]); err == nil {
+		ft.Timestamp = 0
+		copy(data[len(data)-footer.FooterSize:], ft.Encode())
+	}
+	cpath := filepath.Join(dir, "c.sst")
+	one := func(off int, mode string) {
+		nb := c11ModeByte(mode, off, data[off])
+		if nb == data[off] && mode != "n" {
+			out(fmt.Sprintf("C %d %s same", off, mode))
+			return
+		}
+		alt := append([]byte(nil), data...)
+		alt[off] = nb
+		if err := os.WriteFile(cpath, alt, 0644); err != nil {
+			out("C err")
+			return
+		}
+		stat["corruptions"]++
+		what := fmt.Sprintf("file byte %d altered %02x->%02x: ", off, data[off], nb)
+		var obs string
+		if c11Risky(rs, data, off) {
+			obs = c11RunChild(dir, cpath, es, probes, func(m string) { fail(what + m) })
+		} else {
+			func() {
+				defer func() {
+					if r := recover(); r != nil {
+						obs = "open=crash:panic"
+					}
+				}()
+				obs = c11Observe(cpath, es, probes, func(m string) { fail(what + m) }, stat)
+			}()
+		}
+		if strings.HasPrefix(obs, "open=crash") {
+			stat["corrupt_crash"]++
+			out("KF altered_filter_header_crashes_open")
+			fail(what + "opening the file kills the process (" + obs[5:] + ") instead of returning an error")
+		}
+		out(fmt.Sprintf("C %d %s %s", off, mode, obs))
+	}
+	switch args[0] {
+	case "at":
+		off, _ := strconv.Atoi(args[1])
+		if off < len(data) {
+			one(off, args[2])
+		}
+	case "all":
+		start, _ := strconv.Atoi(args[1])
+		stride, _ := strconv.Atoi(args[2])
+		for off := start; off < len(data); off += stride {
+			for _, m := range args[3] {
+				one(off, string(m))
+			}
+		}
+	}
+}
+
+// c11RunChild observes the file in a child process (this binary, "run C11" on a child case).
+func c11RunChild(dir, cpath string, es []sEntry, probes [][]byte, bad func(string)) string {
+	cf := filepath.Join(dir, "child.case")
+	var sb strings.Builder
+	fmt.Fprintf(&sb, "case child mode=child path=%s\n", cpath)
+	for _, e := range es {
+		v := "~"
+		if e.val != nil {
+			v = mkTok(e.val)
+		}
+		fmt.Fprintf(&sb, "e %s %s %s\n", mkTok(e.key), num(e.seq), v)
+	}
+	for _, p := range probes {
+		fmt.Fprintf(&sb, "probe %s\n", mkTok(p))
+	}
+	sb.WriteString("end\n")
+	if err := os.WriteFile(cf, []byte(sb.String()), 0644); err != nil {
+		return "open=childerr"
+	}
+	exe, err := os.Executable()
+	if err != nil {
+		return "open=childerr"
+	}
+	cmd := exec.Command(exe, "run", "C11", cf)
+	var so, se bytes.Buffer
+	cmd.Stdout, cmd.Stderr = &so, &se
+	runErr := cmd.Run()
+	obs := ""
+	for _, l := range strings.Split(so.String(), "\n") {
+		switch {
+		case strings.HasPrefix(l, "child OBS "):
+			obs = l[len("child OBS "):]
+		case strings.HasPrefix(l, "child BAD "):
+			bad(l[len("child BAD "):])
+		case strings.HasPrefix(l, "child IMPL-PANIC"):
+			obs = "open=crash:panic"
+		}
+	}
+	if obs != "" {
+		return obs
+	}
+	es2 := se.String()
+	switch {
+	case strings.Contains(es2, "out of memory") || strings.Contains(es2, "cannot allocate memory"):
+		return "open=crash:oom"
+	case strings.Contains(es2, "panic:") || strings.Contains(es2, "fatal error"):
+		return "open=crash:panic"
+	}
+	return fmt.Sprintf("open=childerr:%v", runErr)
 }
 
 // ---- generator ----
